@@ -1,4 +1,8 @@
 use std::path::PathBuf;
+
+#[global_allocator]
+static GLOBAL: vcheck::alloc_count::Counting = vcheck::alloc_count::Counting;
+
 use vcheck::engine::{install_quiet_panic_hook, Engine, Tier};
 use vcheck::props;
 
